@@ -59,6 +59,8 @@ def comp_class():
             s = self.options['sc']
             R, C = s['R'], s['C']
             self._A = np.array(s['A'], dtype=float).reshape((R, C))
+            # step / directional families: curvature Q (y = A x + Q x^2 + b) and the way the check is run
+            self._Q = np.array(s['Q'], dtype=float).reshape((R, C)) if 'Q' in s else None
             self._b = np.array(s['b'], dtype=float)
             self._rows = np.array([rc[0] - 1 for rc in s['pseq']], dtype=int)
             self._cols = np.array([rc[1] - 1 for rc in s['pseq']], dtype=int)
@@ -76,9 +78,13 @@ def comp_class():
             else:
                 m = coo_matrix((np.ones(len(self._rows)), (self._rows, self._cols)), shape=(R, C))
                 self.declare_partials('y', 'x', val=getattr(m, 'to' + kind)())
+            if s.get('md', {}).get('dir'):
+                self.set_check_partial_options('x', directional=True)
 
         def compute(self, inputs, outputs):
             outputs['y'] = self._A.dot(inputs['x']) + self._b
+            if self._Q is not None:
+                outputs['y'] += self._Q.dot(inputs['x'] ** 2)
 
         def compute_partials(self, inputs, partials):
             kind = self._kind
@@ -137,7 +143,49 @@ def oracle_ref(s):
             'tzf': tot(jf), 'tzd': tot(A), 'tz': _report_ref(tot(jf), tot(A))}
 
 
+def oracle_ref_modes(s):
+    """independent re-computation of the per-step reports of the step / directional families"""
+    R, C = s['R'], s['C']
+    A, Q, md = s['A'], s['Q'], s['md']
+    J = [[A[r][c] + 2 * Q[r][c] * (c + 1) for c in range(C)] for r in range(R)]
+    P = {tuple(rc): v for rc, v in zip(s['pseq'], s['vals'])}
+    decl = {(r, c) for r in range(1, R + 1) for c in range(1, C + 1)} if s['kind'] == 'dense' else set(P)
+    jf = [[P.get((r, c), 0) for c in range(1, C + 1)] for r in range(1, R + 1)]
+    out = []
+    for n in md['st']:
+        full = [[J[r][c] + F(Q[r][c], n) for c in range(C)] for r in range(R)]
+        if any(x.denominator != 1 for row in full for x in row):
+            raise MachineryError('step family: non-integer quotient')
+        full = [[int(x) for x in row] for row in full]
+        if md['dir']:
+            f1 = [[sum(row)] for row in jf]
+            d1 = [[sum(row)] for row in full]
+            out.append({'jfwd': f1, 'jfd': d1, 'unc': [], 'p': _report_ref(f1, d1)})
+        else:
+            d = [[full[r - 1][c - 1] if (r, c) in decl else 0 for c in range(1, C + 1)] for r in range(1, R + 1)]
+            unc = sorted((r, c) for r in range(1, R + 1) for c in range(1, C + 1)
+                         if full[r - 1][c - 1] != 0 and (r, c) not in decl)
+            out.append({'jfwd': jf, 'jfd': d, 'unc': unc, 'p': _report_ref(jf, d)})
+    return out
+
+
 def oracle_disagreement(s, v):
+    if 'md' in s:
+        ref = oracle_ref_modes(s)
+        if len(ref) != len(v['steps']):
+            return 'steps: spec %d, reference %d' % (len(v['steps']), len(ref))
+        for k, (a, b) in enumerate(zip(ref, v['steps'])):
+            for key in ('jfwd', 'jfd'):
+                if a[key] != b[key]:
+                    return 'step %d %s: spec %s, reference %s' % (k, key, b[key], a[key])
+            if sorted(tuple(x) for x in b['unc']) != a['unc']:
+                return 'step %d unc: spec %s, reference %s' % (k, b['unc'], a['unc'])
+            for f in ('abs', 'rel', 'tv', 'fro2', 'magf', 'magd'):
+                if a['p'][f] != b['p'][f]:
+                    return 'step %d p.%s: spec %s, reference %s' % (k, f, b['p'][f], a['p'][f])
+            if a['p']['pairs'] != sorted(tuple(x) for x in b['p']['pairs']):
+                return 'step %d p.pairs: spec %s, reference %s' % (k, b['p']['pairs'], a['p']['pairs'])
+        return None
     ref = oracle_ref(s)
     for k in ('jfwd', 'jfd', 'tzf', 'tzd'):
         if ref[k] != v[k]:
@@ -154,8 +202,9 @@ def oracle_disagreement(s, v):
 
 
 # ---- observation -----------------------------------------------------------------------------------------
-def _extract(e, partials):
-    """plain-python projection of one (of, wrt) entry of the returned dictionary"""
+def _extract(e, partials, step=None):
+    """plain-python projection of one (of, wrt) entry of the returned dictionary (step: index into the per-step
+    lists a check called with a list of steps returns)"""
     import numpy as np
     if 'J_fwd' in e:
         jname, side = 'J_fwd', 'forward'
@@ -164,14 +213,16 @@ def _extract(e, partials):
     J = e[jname]
     if hasattr(J, 'toarray'):
         J = J.toarray()
-    o = {'jname': jname, 'J': np.asarray(J, dtype=float).tolist(), 'Jfd': np.asarray(e['J_fd'], dtype=float).tolist()}
+    pick = (lambda x: x) if step is None else (lambda x: x[step])
+    o = {'jname': jname, 'J': np.asarray(J, dtype=float).tolist(),
+         'Jfd': np.asarray(pick(e['J_fd']), dtype=float).tolist()}
     for key, name in (('abs error', 'abs'), ('rel error', 'rel'), ('tol violation', 'tv')):
-        val = getattr(e[key], side)
+        val = getattr(pick(e[key]), side)
         o[name] = None if val is None else float(val)
-    pr = getattr(e['vals_at_max_error'], side)
+    pr = getattr(pick(e['vals_at_max_error']), side)
     o['pair'] = None if pr is None else [float(pr[0]), float(pr[1])]
-    o['magf'] = float(getattr(e['magnitude'], side))
-    o['magd'] = float(e['magnitude'].fd)
+    o['magf'] = float(getattr(pick(e['magnitude']), side))
+    o['magd'] = float(pick(e['magnitude']).fd)
     if partials:
         o['unc_key'] = 'uncovered_nz' in e
         o['unc'] = [[int(r), int(c)] for r, c in e.get('uncovered_nz', [])]
@@ -250,8 +301,37 @@ def _check_partials(p, name, kw):
         return {'raised': '%s: %s' % (type(ex).__name__, ex)}
 
 
+def _judge_modes(p, name, s, v):
+    """step / directional families: one check_partials call with the scenario's list of steps (forward differences,
+    exact for the quadratic component), every step's report compared with the spec's"""
+    steps = [1.0 / n for n in s['md']['st']]
+    many = len(steps) > 1
+    label = 'fd forward step=%s%s' % (steps if many else steps[0], ' directional' if s['md']['dir'] else '')
+    try:
+        d = p.check_partials(includes=[name], out_stream=None, compact_print=False, method='fd', form='forward',
+                             step=steps if many else steps[0])
+        e = d[name][('y', 'x')]
+        if many and not (isinstance(e['J_fd'], list) and len(e['J_fd']) == len(steps)):
+            return [{'clause': 'a check with a list of steps returns one J_fd per step', 'expected': len(steps),
+                     'observed': str(type(e['J_fd'])), 'method': label}]
+        obs = [_extract(e, True, k if many else None) for k in range(len(steps))]
+    except Exception as ex:     # the report itself is the subject: an exception is an observation
+        obs = [{'raised': '%s: %s' % (type(ex).__name__, ex)}]
+    fails = []
+    for k, o in enumerate(obs):
+        w = v['steps'][k]
+        for f in compare(o, w['jfwd'], w['jfd'], w['p'], 1e-12, unc=w['unc']):
+            f['method'] = label
+            if many:
+                f['clause'] = 'step %d of %d (h=%s): %s' % (k + 1, len(steps), steps[k], f['clause'])
+            fails.append(f)
+    return fails
+
+
 def _judge_partials(p, name, s, v, fdx=True):
     """run the method sequence on component `name` (one Problem, consecutive calls) -> list of disagreements"""
+    if 'md' in s:
+        return _judge_modes(p, name, s, v)
     fails = []
     for label, kw, tol in METHODS:
         if label == 'fdx' and not fdx:
@@ -320,7 +400,7 @@ CONFIRM = 5        # failures of one signature that are re-run in a problem of t
 
 
 def _signature(s, fails):
-    return (s['kind'], tuple(sorted({(f.get('method'), f['clause']) for f in fails})))
+    return (s['kind'], json.dumps(s.get('md')), tuple(sorted({(f.get('method'), f['clause']) for f in fails})))
 
 
 def _worker(job):
@@ -350,7 +430,7 @@ def _worker(job):
         except Exception:
             p = None
         for k, (idx, s, v, _, fdx) in enumerate(batch):
-            nm = len(METHODS) if fdx else len(METHODS) - 1
+            nm = 1 if 'md' in s else (len(METHODS) if fdx else len(METHODS) - 1)
             fails = _judge_partials(p, 'c%d' % k, s, v, fdx) if p is not None else [{'clause': 'batch setup failed'}]
             res[idx]['n'] += nm
             if fails:
@@ -413,6 +493,10 @@ def pred_diag_keyerror(s, info):
             'uncovered_threshold' in str(f['observed']) for f in fails)
 
 
+# ModeSeq of CheckPartials.tla (RpMode is the 1-based index)
+MODE_SEQ = [{'q': 1, 'st': [2, 4], 'dir': False}, {'q': 1, 'st': [4, 2], 'dir': False}, {'q': 1, 'st': [2], 'dir': False},
+            {'q': 0, 'st': [2], 'dir': True}, {'q': 1, 'st': [4, 2], 'dir': True}]
+
 PREDICATES = {'C13-uncovered-nz-incomplete': pred_incomplete,
               'C13-uncovered-nz-diagonal-keyerror': pred_diag_keyerror}
 
@@ -424,7 +508,8 @@ def _report(ctx, s, v, fails):
         clause += ' (+%d more disagreements in this scenario)' % (len(fails) - 1)
     snippet = ('build: vf.drivers.c13.partials_single(scenario, expected) / totals_single(scenario, expected, mode); '
                './check C13 --replay <this file>')
-    info = {'clause': f0['clause'], 'observed': f0['observed'], 'fails': fails, 'spec_unc': v['unc']}
+    info = {'clause': f0['clause'], 'observed': f0['observed'], 'fails': fails,
+            'spec_unc': v['unc'] if 'unc' in v else v['steps'][0]['unc']}
     # tally by defect class (whether or not the class is listed in known_findings.json)
     cls = [k for k, pred in PREDICATES.items() if pred(s, info)] or ['unclassified']
     tally = ctx.extra.setdefault('disagreeing_scenarios_by_class', {})
@@ -440,7 +525,8 @@ def _bits(C, cells):
 
 
 def _cfg(consts):
-    c = dict(RpR=1, RpC=1, RpKind='"dense"', RpAn='"correct"', RpPc='"full"', RpS=1, RpD=0, init='Init')
+    c = dict(RpR=1, RpC=1, RpKind='"dense"', RpAn='"correct"', RpPc='"full"', RpS=1, RpD=0, RpMode=0, ModeMod=1,
+             init='Init')
     c.update(consts)
     return '''CONSTANTS
   MaxR = 3
@@ -450,6 +536,7 @@ def _cfg(consts):
   SupRem = %(SupRem)d
   CrossMod9 = %(CrossMod9)d
   CrossMod12 = %(CrossMod12)d
+  ModeMod = %(ModeMod)d
   RpR = %(RpR)d
   RpC = %(RpC)d
   RpKind = %(RpKind)s
@@ -457,6 +544,7 @@ def _cfg(consts):
   RpPc = %(RpPc)s
   RpS = %(RpS)d
   RpD = %(RpD)d
+  RpMode = %(RpMode)d
 INIT %(init)s
 NEXT Next
 INVARIANT WellFormed
@@ -467,6 +555,9 @@ INVARIANT NothingDropped
 INVARIANT StorageIndependent
 INVARIANT AbsIsMaxNorm
 INVARIANT TotalsLaw
+INVARIANT StepLaw
+INVARIANT NoAlias
+INVARIANT CorrectStepError
 INVARIANT Export
 ''' % c
 
@@ -483,12 +574,17 @@ def _replay(ctx):
     S = [(r, c) for r in range(1, R + 1) for c in range(1, C + 1) if s['A'][r - 1][c - 1] != 0]
     P = {tuple(x) for x in s['pseq']}
     D = [x for x in S if x not in P] if s['pc'] == 'under' else []
+    mode = 0
+    if 'md' in s:
+        if s['md'] not in MODE_SEQ:
+            raise MachineryError('replay: unknown mode %s' % (s['md'],))
+        mode = MODE_SEQ.index(s['md']) + 1
     cfg = ctx.write_cfg('CheckPartials_replay.cfg', _cfg(dict(
         MaxC=max(3, C), SupMod9=1, SupMod12=1, SupRem=0, CrossMod9=1, CrossMod12=1, RpR=R, RpC=C,
         RpKind='"%s"' % s['kind'], RpAn='"%s"' % s['an'], RpPc='"%s"' % s['pc'], RpS=_bits(C, S), RpD=_bits(C, D),
-        init='InitReplay')))
+        RpMode=mode, init='InitReplay')))
     r = ctx.tlc_check('mech/CheckPartials', cfg, timeout=600, workers=1)
-    exps = r.exports('EXP')
+    exps = r.exports('EXPM' if mode else 'EXP')
     if len(exps) != 1 or exps[0]['s'] != s:
         raise MachineryError('replay: the stored scenario is not one of the spec\'s (TLC gave %s)'
                              % ([e['s'] for e in exps][:1],))
@@ -500,13 +596,13 @@ def _replay(ctx):
     fails, rej = partials_single(s, v)
     if rej:
         raise MachineryError('replay: %s' % rej)
-    for mode in ('fwd', 'rev'):
+    for mode in (() if 'md' in s else ('fwd', 'rev')):
         f2, rej = totals_single(s, v, mode)
         if rej:
             raise MachineryError('replay: %s' % rej)
         fails = fails + f2
     ctx.impl = 1
-    ctx.evaluations = len(METHODS) + 4 * len(TOT_METHODS)
+    ctx.evaluations = 1 if 'md' in s else len(METHODS) + 4 * len(TOT_METHODS)
     ctx.note_nontrivial(json.dumps(s, sort_keys=True))
     ctx.sample({'scenario': s, 'spec_report': v, 'disagreements': [[f.get('method'), f['clause']] for f in fails]})
     ctx.rule = 'replay of one stored scenario (expectation recomputed by TLC)'
@@ -525,28 +621,33 @@ def run(ctx):
     quick = ctx.tier == 'quick'
     # shapes below 9 cells: everything.  quick: half of the 3x3 supports (rotating with the seed), a quarter of the
     # (under-declared AND wrong values) combinations.  thorough: all of 3x3, a sixteenth of the 3x4 supports.
-    consts = dict(MaxC=3, SupMod9=2, SupMod12=1, CrossMod9=4, CrossMod12=1) if quick else \
-        dict(MaxC=4, SupMod9=1, SupMod12=16, CrossMod9=1, CrossMod12=4)
+    consts = dict(MaxC=3, SupMod9=2, SupMod12=1, CrossMod9=4, CrossMod12=1, ModeMod=4) if quick else \
+        dict(MaxC=4, SupMod9=1, SupMod12=16, CrossMod9=1, CrossMod12=4, ModeMod=1)
     consts['SupRem'] = ctx.seed % 16
     cfg = ctx.write_cfg('CheckPartials.cfg', _cfg(consts))
     marks = [('start', time.time())]
     r = ctx.tlc_check('mech/CheckPartials', cfg, timeout=3000, heap='12g', workers=WORKERS)
     marks.append(('tlc', time.time()))
-    ctx.require_actions(['ChooseSupport', 'ChoosePattern'])
+    ctx.require_actions(['ChooseSupport', 'ChoosePattern', 'ChooseMode'])
     exps = r.exports('EXP')
-    if not exps:
+    exps_m = r.exports('EXPM')
+    if not exps or not exps_m:
         raise MachineryError('no scenarios exported')
-    if len(exps) != ctx.coverage_actions.get('ChoosePattern'):
-        raise MachineryError('exported %d scenarios but ChoosePattern produced %s states'
-                             % (len(exps), ctx.coverage_actions.get('ChoosePattern')))
+    if len(exps) != ctx.coverage_actions.get('ChoosePattern') or len(exps_m) != ctx.coverage_actions.get('ChooseMode'):
+        raise MachineryError('exported %d + %d scenarios but ChoosePattern / ChooseMode produced %s / %s states'
+                             % (len(exps), len(exps_m), ctx.coverage_actions.get('ChoosePattern'),
+                                ctx.coverage_actions.get('ChooseMode')))
     del r
     exps.sort(key=lambda e: json.dumps(e['s'], sort_keys=True))
+    exps_m.sort(key=lambda e: json.dumps(e['s'], sort_keys=True))
+    n_base = len(exps)
+    exps = exps + exps_m        # the step / directional families: check_partials only, one call each
     # check_totals: every scenario with fewer than 9 cells, every 4th of the larger ones (rotating with the seed);
     # fwd and rev mode alternate
     items = []
     for i, e in enumerate(exps):
         s = e['s']
-        tot = s['R'] * s['C'] < 9 or (i + ctx.seed) % 4 == 0
+        tot = i < n_base and (s['R'] * s['C'] < 9 or (i + ctx.seed) % 4 == 0)
         items.append((i, s, e['v'], (('fwd', 'rev')[(i // 4) % 2]) if tot else None, (i + ctx.seed) % 4 == 1))
     rnd = random.Random(ctx.seed)
     rnd.shuffle(items)          # even load per chunk
@@ -576,7 +677,9 @@ def run(ctx):
             continue
         ctx.impl += 1
         ctx.evaluations += n
-        if v['unc'] or v['p']['abs'] != 0 or v['ty']['abs'] != 0:
+        if 'md' in s:
+            ctx.note_nontrivial(json.dumps([s['A'], s['pseq'], s['kind'], s['an'], s['md']]))
+        elif v['unc'] or v['p']['abs'] != 0 or v['ty']['abs'] != 0:
             ctx.note_nontrivial(json.dumps([s['A'], s['pseq'], s['kind'], s['an']]))
         if fails:
             _report(ctx, s, v, fails)
@@ -587,10 +690,15 @@ def run(ctx):
     marks.append(('judge', time.time()))
     ctx.extra['phase_wall_s'] = {b[0]: round(b[1] - a[1], 1) for a, b in zip(marks, marks[1:])}
     ctx.extra['check_totals_scenarios'] = n_tot
+    ctx.extra['step_and_directional_scenarios'] = len(exps_m)
     ctx.exhaustive = False      # shapes below 9 cells are complete, the larger ones are sampled (see rule)
     under3 = [e for e in exps if e['s']['nd'] == 3 and e['s']['kind'] == 'csc' and e['s']['an'] == 'correct']
     wrong = [e for e in exps if e['s']['an'] == 'wrong1' and e['s']['kind'] == 'rc' and e['s']['R'] == 2 and e['s']['C'] == 3]
-    for e in (under3[:1] + wrong[:1] + exps[:1])[:3]:
+    multi = [e for e in exps_m if e['s']['md']['st'] == [2, 4] and e['s']['kind'] == 'dense' and e['s']['R'] == 2][:1]
+    if multi:
+        ctx.sample({'scenario': multi[0]['s'], 'spec_report_per_step': [
+            {'J_fd': st['jfd'], 'abs error': st['p']['abs'], 'uncovered_nz(1-based)': st['unc']} for st in multi[0]['v']['steps']]})
+    for e in (under3[:1] + wrong[:1] + exps[:1])[:2]:
         ctx.sample({'scenario': e['s'], 'spec_report': {'J_fwd': e['v']['jfwd'], 'J_fd': e['v']['jfd'],
                                                         'uncovered_nz(1-based)': e['v']['unc'],
                                                         'abs error': e['v']['p']['abs'], 'fro^2': e['v']['p']['fro2']}})
